@@ -22,6 +22,8 @@ from liquid.exceptions import TemplateNotFoundError
 from liquid.tag import Tag
 from liquid.token import TOKEN_AS
 from liquid.token import TOKEN_FOR
+from liquid.token import TOKEN_IDENTSTRING
+from liquid.token import TOKEN_LBRACKET
 from liquid.token import TOKEN_TAG
 from liquid.token import TOKEN_WITH
 from liquid.token import TOKEN_WORD
@@ -240,7 +242,9 @@ class IncludeTag(Tag):
         # Optionally bind a variable to the included template context
         if tokens.current.kind in BIND_TOKENS:
             next(tokens)  # Eat 'with' or 'for'
-            tokens.expect(TOKEN_WORD)
+            if tokens.current.kind not in (TOKEN_IDENTSTRING, TOKEN_LBRACKET):
+                # A path in bracketed notation, like `['a b'].c`, is a path too.
+                tokens.expect(TOKEN_WORD)
             var = Path.parse(self.env, tokens)
 
             # The bound variable will take the name of the template by default,
